@@ -315,7 +315,7 @@ def deviation(ctx, d, b, k, line):
 def sim_part(ctx, d):
     """Returns (stats, violation-dict-or-None, broken-or-None)."""
     if ctx.tier == "quick":
-        batches = [(0, 900, 400), (3000000, 250, 400), (1000000, 10, 2000)]
+        batches = [(0, 800, 400), (3000000, 200, 400), (1000000, 8, 2000)]
     else:
         batches = [(0, 36000, 400), (3000000, 4000, 400), (1000000, 600, 3000), (2000000, 10, 10000)]
     tot_sched = tot_events = nontriv = 0
@@ -388,7 +388,7 @@ def sim_part(ctx, d):
 def cc_part(ctx, d):
     """Membership-change schedules (ProposeConfChange add/remove/joint, applied at commit): outside
     the proved model, so only the safety predicates on the observed states are evaluated."""
-    batches = [(7000000, 400, 400)] if ctx.tier == "quick" else [(7000000, 15000, 400), (8000000, 200, 3000)]
+    batches = [(7000000, 300, 400)] if ctx.tier == "quick" else [(7000000, 15000, 400), (8000000, 200, 3000)]
     tot = ev = conf = leaders = 0
     vev = vsw = vok = venv = vcfgmax = 0
     viol = None
@@ -422,7 +422,7 @@ def cc_part(ctx, d):
                     vok += 1
                     venv += int(kv["envelope"])
                     vcfgmax = max(vcfgmax, int(kv["configs"]))
-                elif dev is None:
+                elif t[2] == "FAIL" and dev is None:
                     dev = (t[1], line)
             for line in (b / "monitor.txt").read_text().splitlines():
                 t = line.split()
@@ -481,8 +481,9 @@ def pv_part(ctx, d):
     """Schedules with Config.PreVote (CheckQuorum in half of them): pre-candidates and
     MsgPreVote/MsgPreVoteResp are outside the model, so these runs are MONITORED only: the safety
     predicates are evaluated on the observed states of the real RawNodes."""
-    batches = [(9000000, 300, 400)] if ctx.tier == "quick" else [(9000000, 10000, 400), (9500000, 200, 3000)]
+    batches = [(9000000, 250, 400)] if ctx.tier == "quick" else [(9000000, 10000, 400), (9500000, 200, 3000)]
     tot = ev = leaders = 0
+    vok = vev = vpre = vresp = 0
     viol = None
     bi = 0
     for first, count, nev in batches:
@@ -499,6 +500,22 @@ def pv_part(ctx, d):
             rc, out = lib.sh("%s monitor traces.txt monitor.txt" % (lib.BUILD / RUNNER), cwd=b, timeout=6000)
             if rc != 0:
                 return {}, None, "raftrun monitor failed: " + out[-2000:]
+            rc, out = lib.sh("%s tracepv traces.txt verdicts.txt" % (lib.BUILD / RUNNER), cwd=b, timeout=6000)
+            if rc != 0:
+                return {}, None, "raftrun tracepv failed: " + out[-2000:]
+            dev = None
+            for line in (b / "verdicts.txt").read_text().splitlines():
+                t = line.split()
+                if len(t) < 3:
+                    continue
+                if t[2] == "OK":
+                    kv = dict(x.split("=", 1) for x in t[3:] if "=" in x)
+                    vok += 1
+                    vev += int(kv["events"])
+                    vpre += int(kv["precandidacies"])
+                    vresp += int(kv["prevoteresp"])
+                elif t[2] == "FAIL" and dev is None:
+                    dev = (t[1], line)
             for line in (b / "monitor.txt").read_text().splitlines():
                 t = line.split()
                 if len(t) < 3:
@@ -518,23 +535,40 @@ def pv_part(ctx, d):
                     if not v2 or " UNSAFE " not in v2:
                         v2 = line + "   [NOT reproduced by the explicit replay of its schedule: original verdict shown]"
                     viol = dict(kind="safety-violation", found_input=True, schedule=int(t[1]), seed=ctx.seed,
-                                with_prevote=True, reason=fail_reason(v2), verdict=v2, header=header,
+                                with_prevote=True, first_deviation_from_model=(dev[1] if dev else None), reason=fail_reason(v2), verdict=v2, header=header,
                                 events=shr, trace_tail=trace.splitlines()[-14:],
                                 theorem="(PreVote/CheckQuorum are outside the model) safety predicates of C15 evaluated on the observed states of the real RawNodes",
                                 note=NOTE + "; header flags: 1 = Config.PreVote, 2 = Config.CheckQuorum; XPV/XPW = MsgPreVote/MsgPreVoteResp; role Q = pre-candidate")
+            if viol is None and dev is not None:
+                kk, line = dev
+                header, evs = schedule_of(b / "traces.txt", kk)
+                fe = fail_event(line)
+                if fe:
+                    evs = evs[:fe]
+                shr, v = sim_shrink(b, header, evs, mode="tracepv")
+                v2, trace = sim_eval(b, [header] + shr, tag="final", mode="tracepv")
+                if not v2 or " FAIL " not in v2:
+                    v2 = line + "   [NOT reproduced by the explicit replay of its schedule: original verdict shown]"
+                viol = dict(kind="trace-validation-pv", found_input=False, schedule=int(kk), seed=ctx.seed,
+                            with_prevote=True, reason=fail_reason(v2), verdict=v2, header=header,
+                            events=shr, trace_tail=trace.splitlines()[-12:],
+                            theorem="C15_check_step_pv_sound: an accepted step is a step of RaftPV.pxstep (raft with PreVote); on this schedule the implementation takes a step that is NOT one.  No safety predicate failed on the observed states of this chunk",
+                            note=NOTE + "; header flags: 1 = Config.PreVote, 2 = Config.CheckQuorum; XPV/XPW = MsgPreVote/MsgPreVoteResp; role Q = pre-candidate")
             if viol is None:
                 try:
                     (b / "traces.txt").unlink()
                 except OSError:
                     pass
             k += c
-    stats = dict(pv_schedules=tot, pv_events=ev, pv_terms_with_a_leader=leaders,
+    stats = dict(pv_validated_schedules=vok, pv_validated_events=vev, pv_precandidacies_validated=vpre,
+                 pv_prevote_responses_delivered=vresp,
+                 pv_schedules=tot, pv_events=ev, pv_terms_with_a_leader=leaders,
                  pv_scope="; ".join("%d schedules x %d events" % (c, n) for _, c, n in batches))
     return stats, viol, None
 
 
 def replay_sim(ctx, r, d):
-    mode = "monitor" if r.get("kind") == "safety-violation" else ("tracecc" if r.get("kind") == "trace-validation-cc" else "trace")
+    mode = {"safety-violation": "monitor", "trace-validation-cc": "tracecc", "trace-validation-pv": "tracepv"}.get(r.get("kind"), "trace")
     v, trace = sim_eval(d, [r["header"]] + r["events"], tag="replay", mode=mode)
     if v is None:
         print("replay: could not run:", trace)
@@ -562,7 +596,7 @@ def run(ctx):
             return 1
         if r.get("kind", "").startswith("impl-vs-model quorum"):
             return replay_quorum(ctx, r, d)
-        if r.get("kind") in ("trace-validation", "safety-violation", "trace-validation-cc"):
+        if r.get("kind") in ("trace-validation", "safety-violation", "trace-validation-cc", "trace-validation-pv"):
             return replay_sim(ctx, r, d)
         print("replay: nothing to re-run for kind=%r: %s" % (r.get("kind"), r.get("what", "")[:500]))
         return 1
@@ -596,7 +630,7 @@ def run(ctx):
         if kf["kind"] == "open":
             print("KNOWN-FINDING: property=%s %s %s" % (PID, kf["id"], kf["text"]))
     cov.update(dict(
-        evaluations=stats.get("quorum_cases", 0) + stats.get("sim_events", 0) + stats.get("cc_validated_events", 0),
+        evaluations=stats.get("quorum_cases", 0) + stats.get("sim_events", 0) + stats.get("cc_validated_events", 0) + stats.get("pv_validated_events", 0),
         distinct_nontrivial=stats.get("quorum_distinct_nontrivial", 0) + stats.get("sim_distinct_nontrivial", 0),
         rule="(D) " + stats.get("quorum_scope", "-") + "; a quorum case is non-trivial when its first config is non-empty and the four answers are not the all-default tuple; distinct = distinct case lines. "
              "(V) " + stats.get("sim_scope", "-") + " on 1-5 real RawNodes (seeded adversarial scheduler: deliver/duplicate/drop/reorder, partitions, tick, propose, campaign, crash-restart, crash before persisting); every event is one evaluation, checked by the extracted check_step (exact equality of term/vote/commit/role/lead/log with the model, replies present, other messages allowed by emit_okb) plus the extracted safety predicates; a schedule is non-trivial when a leader was elected and an entry beyond the leader's empty entry was committed; distinct = distinct md5 of the event sequence",
@@ -609,8 +643,8 @@ def run(ctx):
         membership_change_exploration=dict(
             (k, v) for k, v in stats.items() if k.startswith("cc_")) or None,
         prevote_checkquorum_monitoring=dict((k, v) for k, v in stats.items() if k.startswith("pv_")) or None,
-        prevote_checkquorum_note="MONITOR ONLY: schedules with Config.PreVote = true (Config.CheckQuorum = true in half of them, small election timeouts in half) are outside the model (pre-candidate role, MsgPreVote/MsgPreVoteResp, leases); the same adversarial scheduler runs them (pre-vote responses are often kept in flight and re-delivered late) and only the safety predicates on the observed states are evaluated (raftrun monitor); not counted in evaluations",
-        membership_change_note="schedules with ProposeConfChange (add/remove a voter, joint add+remove with automatic leave; applied when committed) are (a) validated event by event against the membership-change model RaftCC.exec_cc by the extracted check_step_cc (exact equality of term/vote/commit/role/lead/log AND of the node's configuration; sound w.r.t. RaftCC.cxstep) — these events are counted in evaluations — and (b) monitored: the safety predicates are evaluated on the observed states.  The SAFETY theorems cover such runs only inside a family of pairwise-intersecting configurations (C15_cc_*_partial); the general chain argument of joint consensus is not proved",
+        prevote_checkquorum_note="schedules with Config.PreVote = true (pre-vote responses are often kept in flight and re-delivered late; small election timeouts in half): those WITHOUT CheckQuorum (half) are validated event by event against the PreVote model RaftPV.exec_pv by the extracted check_step_pv (sound w.r.t. pxstep; the safety theorems C15_pv_* cover pxreachable) and counted in evaluations; those WITH CheckQuorum (leases, leader step-down on ticks; these schedules also call TransferLeader) are outside the model and MONITORED only; the safety predicates are evaluated on the observed states of all of them (raftrun monitor)",
+        membership_change_note="schedules with ProposeConfChange (add/remove a voter, joint add+remove with automatic leave; applied when committed) are (a) validated event by event against the membership-change model RaftCC.exec_cc by the extracted check_step_cc (exact equality of term/vote/commit/role/lead/log AND of the node's configuration; sound w.r.t. RaftCC.cxstep) — these events are counted in evaluations — and (b) monitored: the safety predicates are evaluated on the observed states.  The SAFETY theorems cover such runs only inside a family of pairwise-intersecting configurations (C15_cc_*_partial); the general chain argument of joint consensus is not proved.  A quarter of the schedules also add learners: outside the model, monitored only (tracecc skips them)",
         correspondence="(D) quorum.{MajorityConfig,JointConfig}.{CommittedIndex,VoteResult} (built from VERIF_REPO working tree) vs extracted Gallina majority_/joint_ functions, compared on every case; (V) raft.RawNode + MemoryStorage (built from VERIF_REPO) vs extracted check_step on every event",
     ))
     lib.write_evidence(PID, ctx.tier, ctx.seed, cov,
